@@ -23,7 +23,7 @@ import (
 func init() {
 	Register(&Monitor{
 		ID: "C10",
-		Rule: "scripted parser.Parser streams generated from abstract documents (nesting, namespace declarations incl. overrides of inherited prefixes and repeats within one element, attributes, text incl. adjacent text, comments, PIs, top-level non-element nodes, surplus end events at the root, flat streams up to 10^5..10^7 events, chains up to depth 10^4) -> store.CreateInMemory; " +
+		Rule: "scripted parser.Parser streams generated from abstract documents (nesting, namespace declarations incl. overrides of inherited prefixes and repeats within one element, attributes, text incl. adjacent text, comments, PIs, top-level non-element nodes, surplus end events at the root, flat streams up to 10^5..10^7 events (children of one element: text/comment/element, and elements that each carry namespace declarations and an attribute), chains up to depth 10^4) -> store.CreateInMemory; " +
 			"oracles: (1) parallel walk tree==document, every cursor reachable once; (2) Pos() unique, 0 only for root, strictly increasing in document order element<ns<attrs<children<following; (3) Parent() of every listed cursor is the lister; (4) namespace prefix map per element = inherited overridden by prefix; " +
 			"(5) trace monitor: call depth sampled inside Pull() <= 96 + 8*nesting depth; (6) child process with 64 MiB max stack survives the flat builds. distinct_nontrivial = distinct document shape signatures with >= 3 nodes",
 		Assumptions: []string{"runtime.Callers depth is a faithful proxy for goroutine stack use", "a Namespace event with empty prefix and empty value means 'no default namespace here' (xmlns=\"\"): it overrides an inherited default namespace by prefix and is itself not a namespace node — the meaning the store documents since its repair"},
@@ -239,6 +239,22 @@ func flatEvents(n int) []adoc.Event {
 	return evs
 }
 
+// flatNSEvents: one element whose n/5 children each carry a namespace declaration (some two, some
+// overriding the parent's binding) and an attribute.
+func flatNSEvents(n int) []adoc.Event {
+	evs := make([]adoc.Event, 0, n+8)
+	evs = append(evs, adoc.Event{Node: adoc.EElem{L: "r"}}, adoc.Event{Node: adoc.ENS{P: "xml", V: adoc.XMLNS}, Depth: 1}, adoc.Event{Node: adoc.ENS{P: "p", V: "urn:a"}, Depth: 1})
+	for i := 0; len(evs) < n; i++ {
+		evs = append(evs, adoc.Event{Node: adoc.EElem{L: "e"}, Depth: 1}, adoc.Event{Node: adoc.ENS{P: "q", V: "urn:b"}, Depth: 2})
+		if i%3 == 0 {
+			evs = append(evs, adoc.Event{Node: adoc.ENS{P: "p", V: "urn:c"}, Depth: 2})
+		}
+		evs = append(evs, adoc.Event{Node: adoc.EAttr{L: "k", V: "v"}, Depth: 2}, adoc.Event{End: true, Depth: 2})
+	}
+	evs = append(evs, adoc.Event{End: true, Depth: 1})
+	return evs
+}
+
 func chainEvents(depth int) []adoc.Event {
 	evs := make([]adoc.Event, 0, 2*depth)
 	for i := 0; i < depth; i++ {
@@ -255,9 +271,12 @@ func chainEvents(depth int) []adoc.Event {
 func ChildC10(kind string, n int) int {
 	debug.SetMaxStack(64 << 20)
 	var evs []adoc.Event
-	if kind == "flat" {
+	switch kind {
+	case "flat":
 		evs = flatEvents(n)
-	} else {
+	case "flatns":
+		evs = flatNSEvents(n)
+	default:
 		evs = chainEvents(n)
 	}
 	maxExcess := 0
@@ -288,6 +307,15 @@ func ChildC10(kind string, n int) int {
 			ok = false
 		}
 		prev = c.Pos()
+		for _, x := range append(append([]store.Cursor{}, c.Namespaces()...), c.Attributes()...) {
+			if x.Parent() != c || x.Pos() <= prev {
+				ok = false
+			}
+			prev = x.Pos()
+		}
+		if kind == "flatns" && count > 2 && (len(c.Namespaces()) != 3 || len(c.Attributes()) != 1) {
+			ok = false
+		}
 		ch := c.Children()
 		for i := len(ch) - 1; i >= 0; i-- {
 			if ch[i].Parent() != c {
@@ -298,8 +326,12 @@ func ChildC10(kind string, n int) int {
 	}
 	want := 1
 	for _, ev := range evs {
-		if !ev.End {
-			want++
+		switch ev.Node.(type) {
+		case adoc.ENS, adoc.EAttr:
+		default:
+			if !ev.End {
+				want++
+			}
 		}
 	}
 	fmt.Printf("RESULT nodes=%d want=%d posok=%v excess=%d\n", count, want, ok, maxExcess)
@@ -314,9 +346,9 @@ func c10Post(r *evid.Run, tier string) {
 		kind string
 		n    int
 	}
-	jobs := []job{{"flat", 100000}, {"chain", 2000}, {"flat", 1000000}}
+	jobs := []job{{"flat", 100000}, {"chain", 2000}, {"flat", 1000000}, {"flatns", 100000}, {"flatns", 1000000}}
 	if tier == "thorough" {
-		jobs = append(jobs, job{"chain", 10000}, job{"flat", 10000000})
+		jobs = append(jobs, job{"chain", 10000}, job{"flat", 10000000}, job{"flatns", 10000000})
 	}
 	self, _ := os.Executable()
 	for _, j := range jobs {
